@@ -8,7 +8,7 @@ use triomphe::Arc;
 
 fn main() {
     let mut t = Tally::new();
-    for r in 0..rounds(2) {
+    for r in 0..rounds(3) {
         let tag = 70 + r as u64;
         let a = Arc::new(Payload::new(tag));
         t.shared(5);
